@@ -25,7 +25,7 @@ SHAPES = [
     # characters that are line boundaries for str.splitlines() but not for a text file: one line stays one entry
     b"0Form\x0cfeed and \x0bvt\tf&g.txt", b"info with NEL \xc2\x85 and LS \xe2\x80\xa8 inside",
 ]
-PLACEMENTS = ["root", "d1", "d2", "file", "rootfile"]
+PLACEMENTS = ["root", "d1", "d2", "file", "rootfile", "zip"]
 
 
 def reference(lines, dirsel: bytes):
@@ -87,22 +87,46 @@ _worlds = {}
 
 def world_for(placement):
     """ONE long-lived world per placement: the gophermap is rewritten IN PLACE between cases, with every
-    timestamp pinned, so anything the server remembers about an earlier gophermap shows."""
+    timestamp pinned, so anything the server remembers about an earlier gophermap shows.  Before the first
+    gophermap is written the directory is requested WITHOUT one (it is an ordinary directory then)."""
     w = _worlds.get(placement)
     if w is None:
-        w = rig.World(LAYOUT[placement][0], handlers="default", cachetime=0, tag="c09")
+        if placement == "zip":
+            w = rig.World({}, handlers="full", cachetime=0, tag="c09")
+        else:
+            w = rig.World(LAYOUT[placement][0], handlers="default", cachetime=0, tag="c09")
+            for view in ("gopher", "http", "gopherp_dir"):
+                w.serve(*rig.request(view, LAYOUT[placement][3]))
+                w.serve(*rig.request(view, LAYOUT[placement][2] or b"/"))
         _worlds[placement] = w
     return w
 
 
+def _zip_case(w, lines, term):
+    """The same gophermap inside an archive: /z.zip/gm/gophermap"""
+    import zipfile, io
+
+    buf = io.BytesIO()
+    with zipfile.ZipFile(buf, "w") as z:
+        for name, data in (("gm/gophermap", body_of(lines, term)), ("gm/rel.txt", b"r\n"), ("gm/sub/deep.txt", b"d\n"), ("gm/f&g.txt", b"fg\n")):
+            zi = zipfile.ZipInfo(name, date_time=(2004, 1, 1, 0, 0, 0))
+            zi.external_attr = 0o100644 << 16
+            z.writestr(zi, data)
+    rig.write_file(os.path.join(w.root, "z.zip"), buf.getvalue(), mtime=1000000000)
+
+
 def check_one(lines, term, placement, views):
-    tree, gpath, dirsel, reqsel = LAYOUT[placement]
     w = world_for(placement)
     rig.reset_lazies()  # several worlds live in this process; the root path is one of the lazily cached values
     bad = []
-    full = os.path.join(os.fsencode(w.root), gpath)
-    rig.write_file(full, body_of(lines, term), mtime=1000000000)
-    os.utime(os.path.dirname(full), (1000000000, 1000000000))
+    if placement == "zip":
+        dirsel, reqsel = b"/z.zip/gm", b"/z.zip/gm"
+        _zip_case(w, lines, term)
+    else:
+        tree, gpath, dirsel, reqsel = LAYOUT[placement]
+        full = os.path.join(os.fsencode(w.root), gpath)
+        rig.write_file(full, body_of(lines, term), mtime=1000000000)
+        os.utime(os.path.dirname(full), (1000000000, 1000000000))
     want = expected_menu(reference(lines, dirsel))
     base = None
     for view in views:
@@ -171,7 +195,9 @@ def run(ck):
                         continue
                     if term == "nolast" and SHAPES[idxs[-1]] == b"":
                         continue  # an empty unterminated last line is no line at all
-                    if k == 3 and ck.tier == "quick" and placement in ("d2", "rootfile"):
+                    if k == 3 and ck.tier == "quick" and placement in ("d2", "rootfile", "zip"):
+                        continue
+                    if placement == "zip" and term != "lf" and k > 1:
                         continue
                     allviews = k <= 2 and (term == "lf" or k == 1)
                     items.append((idxs, term, placement, allviews))
